@@ -141,7 +141,7 @@ func c08RunOrRuleSets(c *mon.Ctx) {
 							}
 							n.Rules = []*model.Rule{model.ROr(items...)}
 							sp := c08Spec(n, pos)
-							obs := lib.Check(sp)
+							obs := c08Check(sp)
 							c.Eval(1)
 							c.DistinctByConstruction(1)
 							c.Count("or rule-set pair cases", 1)
@@ -167,6 +167,28 @@ func c08RunOrRuleSets(c *mon.Ctx) {
 			}
 		}
 	}
+}
+
+// c08Check is Check on a fresh schema; for every fourth schema text (by hash) the same object is
+// first asked for UsedUserTypes() (result ignored): the loading step has then already run - and
+// possibly failed - when Check is called, and the verdict must be the same.
+func c08Check(sp lib.Spec) lib.Obs {
+	if mon.HashString(sp.Text)%4 != 0 {
+		return lib.Check(sp)
+	}
+	s, o := lib.Build(sp)
+	if !o.OK {
+		// AddRule / AddType already reported that the root does not load: Check on the same object
+		// must refuse it as well
+		if s != nil {
+			if chk := lib.Safe(s.Check); chk.OK || chk.Panic != "" {
+				return chk
+			}
+		}
+		return o
+	}
+	lib.SafeVal(s.UsedUserTypes)
+	return lib.Safe(s.Check)
 }
 
 func c08Run(c *mon.Ctx, unit int) {
@@ -246,7 +268,7 @@ func c08Judge(c *mon.Ctx, kind int, pos model.Position, rules []*model.Rule, sam
 			m := gen.KindExample(kind)
 			m.Rules = append([]*model.Rule{}, p...)
 			sp := c08Spec(m, pos)
-			all = append(all, res{sp, lib.Check(sp)})
+			all = append(all, res{sp, c08Check(sp)})
 		})
 	} else {
 		// larger sets: the written order, its reverse, all rotations and 12 seeded shuffles
@@ -269,7 +291,7 @@ func c08Judge(c *mon.Ctx, kind int, pos model.Position, rules []*model.Rule, sam
 			m := gen.KindExample(kind)
 			m.Rules = p
 			sp := c08Spec(m, pos)
-			all = append(all, res{sp, lib.Check(sp)})
+			all = append(all, res{sp, c08Check(sp)})
 		}
 	}
 	c.Eval(len(all))
@@ -331,12 +353,12 @@ func init() {
 			"matrix": func(raw json.RawMessage) string {
 				var cs c08Case
 				json.Unmarshal(raw, &cs)
-				return lib.Check(cs.Spec).Verdict()
+				return c08Check(cs.Spec).Verdict()
 			},
 			"check": func(raw json.RawMessage) string {
 				var cs c08Case
 				json.Unmarshal(raw, &cs)
-				if o := lib.Check(cs.Spec); o.Panic != "" {
+				if o := c08Check(cs.Spec); o.Panic != "" {
 					return o.String()
 				}
 				return "no panic"
@@ -344,7 +366,7 @@ func init() {
 			"order": func(raw json.RawMessage) string {
 				var m struct{ A, B lib.Spec }
 				json.Unmarshal(raw, &m)
-				a, b := lib.Check(m.A), lib.Check(m.B)
+				a, b := c08Check(m.A), c08Check(m.B)
 				if a.Verdict() == b.Verdict() {
 					return "same verdict"
 				}
